@@ -586,7 +586,17 @@ def field_closures(ctx, rid):
     cls = list(q.closures(fn["body"], lambda t: t.startswith("scale_info::Field<")))
     # only closures that build a field IR (not the all()/any() predicates)
     cls = [c for c in cls if "CompositeFieldIR" in c.get("ty", "") or "CompositeFieldIR" in show(N.term(c["body"]))]
-    ctx.count("field-emitting closures", len(cls), 2)
+    # the per-field constructions as the function's term has them: the element function of the list under Named(..) / Unnamed(..), whether the
+    # source maps a closure over the fields, pushes in a loop, or calls a private helper per field
+    by_term = {}
+    for x in subterms(N.term(fn["body"])):
+        if x[0] == "call" and x[1] in ("CompositeIRKind::Named", "CompositeIRKind::Unnamed") and len(x[2]) == 1:
+            a = x[2][0][1] if x[2][0][0] == "try" else x[2][0]
+            if a[0] == "call" and a[1] == "Iterator::collect" and len(a[2]) == 1 and a[2][0][0] == "call" and a[2][0][1] == "Iterator::map" \
+                    and len(a[2][0][2]) == 2 and a[2][0][2][1][0] == "closure" and show(a[2][0][2][0]) == "P1":
+                by_term.setdefault(x[1], a[2][0][2][1][3])
+    use_terms = len(by_term) == 2
+    ctx.count("field-emitting closures", 2 if use_terms else len(cls), 2)
     i_tp = q.param_index(fn, lambda t: t.endswith("type_params::TypeParameters"))
     TP = "P%d" % i_tp
     PATH = "TypeGenerator::resolve_field_type_path(P0,C1_0.ty.id,TypeParameters::params(%s),C1_0.type_name)?" % TP
@@ -596,8 +606,8 @@ def field_closures(ctx, rid):
     exp_unnamed = "{%s;Ok(%s)}" % (MARK, FIR)
     ctx.mention(exp_named, exp_unnamed)
     seen = set()
-    for c in cls:
-        t = N.term(c["body"])
+    items = [(fn, bt) for _k, bt in sorted(by_term.items())] if use_terms else [(c, N.term(c["body"])) for c in cls]
+    for c, t in items:
         s = show(t, 10 ** 5)
         if q.term_matches(s, exp_named):
             seen.add("named")
@@ -608,7 +618,7 @@ def field_closures(ctx, rid):
         else:
             ctx.bad(rid, "field-closure/unexpected", site(c), "a per-field closure deviates from the field-IR construction shared by named and unnamed fields\nfound:    %s\nexpected: %s\n      or: %s" % (s, exp_named, exp_unnamed))
     for k in ("named", "unnamed"):
-        if k not in seen and len(cls) >= 2 and not any(i["key"] == "field-closure/unexpected" and not i["ok"] for i in ctx.instances):
+        if k not in seen and len(items) >= 2 and not any(i["key"] == "field-closure/unexpected" and not i["ok"] for i in ctx.instances):
             ctx.bad(rid, "field-closure/" + k, fn["sp"], "no %s-field closure found" % k)
     # pipelines + kind selection
     t = N.term(fn["body"])
